@@ -5,7 +5,7 @@ from one use to the next (a cache in db.Fit keyed by a column that only changes 
 writes the first time, a file that is appended to, ...).  This stream drives ONE store through a generated
 history of operations and states the property for every read:
 
-  store = "db"     a db.Fit per slot (1-3 fits in one session): new [with model] / write k / read / writeback
+  store = "db"     a db.Fit per slot (1-3 fits in one session): new [with model] / write k / amend k (the caller's model object k revised in place, written again) / read / writeback
                    (fit.model = fit.model) / revise (read, add a fixed value, write) / add to session / flush /
                    commit / expire / reopen (commit, close, new engine + session, fits re-queried by id);
                    detached fits (never added) are kept as Python objects throughout
@@ -22,7 +22,7 @@ import json
 RULE = (" PLUS write/read histories on ONE store object: 2-3 composition programs (independent, or a revision of the first: other "
         "limits / parameters, assertions dropped or added) x a store (db.Fit objects of one session: detached, added, before and after "
         "flush / commit / expire, re-queried in a new session, 1-3 fits side by side; a JSON file or a pickle file rewritten at the same "
-        "path) x a history of 8-20 operations (write k, read, write-back of what was read, revise what was read and write it, "
+        "path) x a history of 8-20 operations (write k, read, write-back of what was read, revise what was read and write it, amend the caller's own model object in place and write it again, touch it in place WITHOUT writing, scribble on a model that was read without writing it back, "
         "add / flush / commit / expire / reopen); every read is an evaluation, non-trivial when its slot was written at least twice before.")
 
 MANIFEST_TEXT = (" Histories: a store machine (History.v: slots with an attached image and a stored image; write / write-back / flush / "
@@ -103,6 +103,9 @@ def gen_history_case(ctx):
         created.add(slot)
         if mk is not None:
             written[slot] = 1
+        if store == "db" and rng.random() < 0.4:            # in the session from the start (with or without a model yet)
+            ops.append(["add", slot])
+            added.add(slot)
 
     new(0)
     length = rng.randint(8, 20)
@@ -128,11 +131,19 @@ def gen_history_case(ctx):
             if slot in written:
                 ops.append(["revise", slot])
                 written[slot] += 1
-        elif x < 0.80:
-            if store == "db" and slot in written and slot not in added:
+        elif x < 0.76:
+            ops.append(["amend", slot, rng.randrange(nm)])
+            written[slot] = written.get(slot, 0) + 1
+        elif x < 0.79:
+            ops.append(["touch", 0, rng.randrange(nm)])
+        elif x < 0.83:
+            if slot in written:
+                ops.append(["scribble", slot])
+        elif x < 0.88:
+            if store == "db" and slot not in added:
                 ops.append(["add", slot])
                 added.add(slot)
-        elif x < 0.93:
+        elif x < 0.95:
             if store == "db":
                 ops.append([rng.choice(["flush", "commit", "commit", "expire", "reopen"])])
         else:
@@ -149,7 +160,7 @@ def gen_history_case(ctx):
 
 
 def gen_cases(ctx):
-    n = 44 if ctx.tier == "quick" else 300
+    n = 44 if ctx.tier == "quick" else 220
     return [gen_history_case(ctx) for _ in range(n)]
 
 
@@ -159,16 +170,24 @@ def expected_indices(c):
     revise) and the state written directly before (write-backs included); plus the number of writes so far."""
     nm = len(c["models"])
     nxt = nm
-    explicit, direct, base, count = {}, {}, {}, {}
+    explicit, direct, base, count, model_idx = {}, {}, {}, {}, {}
     out = {}
     for k, op in enumerate(c["ops"]):
         name = op[0]
         if name == "new":
             if op[2] is not None:
-                explicit[op[1]] = direct[op[1]] = base[op[1]] = op[2]
+                explicit[op[1]] = direct[op[1]] = model_idx.get(op[2], op[2])
+                base[op[1]] = op[2]
                 count[op[1]] = 1
         elif name == "write":
-            explicit[op[1]] = direct[op[1]] = base[op[1]] = op[2]
+            explicit[op[1]] = direct[op[1]] = model_idx.get(op[2], op[2])
+            base[op[1]] = op[2]
+            count[op[1]] = count.get(op[1], 0) + 1
+        elif name == "amend":
+            model_idx[op[2]] = nxt
+            nxt += 1
+            explicit[op[1]] = direct[op[1]] = model_idx[op[2]]
+            base[op[1]] = op[2]
             count[op[1]] = count.get(op[1], 0) + 1
         elif name == "writeback":
             out[k] = (explicit[op[1]], direct[op[1]], base[op[1]], count[op[1]])
@@ -179,7 +198,10 @@ def expected_indices(c):
             explicit[op[1]] = direct[op[1]] = nxt
             nxt += 1
             count[op[1]] += 1
-        elif name == "read":
+        elif name == "touch":
+            model_idx[op[2]] = nxt
+            nxt += 1
+        elif name in ("read", "scribble"):
             out[k] = (explicit[op[1]], direct[op[1]], base[op[1]], count[op[1]])
     return out
 
